@@ -746,6 +746,116 @@ fn exh_cmp(ctx: &Ctx, w: &std::cell::RefCell<World>, nmax: usize) {
     ));
 }
 
+// ------------------------------------------------------------------------------------ neighbours
+
+/// "Never writes a byte outside the destination" against a write that puts back what it has just read there (a
+/// read-modify-write of a whole word at the edge of the destination): comparing memory before and after cannot see
+/// it. While this thread calls the function over and over, a second thread is the ONLY writer of the byte right in
+/// front of and the byte right behind the destination: it stores a counter there and, before each new store, reads
+/// back what it stored last. A read that differs from its own last store proves a foreign write to that byte
+/// (nothing else in the process has its address). Finding none proves nothing - the window is narrow -, so this
+/// complements the exact checks above; a finding is definitive.
+#[derive(Serialize, Deserialize, Clone, Debug)]
+pub struct NeighbourCase {
+    /// 0 memset, 1 memcpy, 2 memmove (source elsewhere)
+    pub op: u8,
+    pub n: usize,
+    /// misalignment of the destination relative to 16
+    pub mis: u8,
+}
+
+pub fn check_neighbours(c: &NeighbourCase) -> CaseResult {
+    use std::sync::atomic::{AtomicBool, AtomicU8, Ordering::*};
+    let mut rep = CaseReport::new();
+    let n = c.n.min(4096);
+    let mis = (c.mis & 15) as usize;
+    // 64-byte aligned backing store; the destination starts 64 + mis bytes in
+    let mut store = vec![0u64; (n + 256) / 8 + 2];
+    let base = (store.as_mut_ptr() as usize + 63) & !63;
+    let dest = (base + 64 + mis) as *mut u8;
+    let src: Vec<u8> = (0..n).map(|i| (i * 7 + 3) as u8).collect();
+    let before = unsafe { &*((dest as usize - 1) as *const AtomicU8) };
+    let behind = unsafe { &*((dest as usize + n) as *const AtomicU8) };
+    let (started, stop) = (AtomicBool::new(false), AtomicBool::new(false));
+    let dest_addr = dest as usize;
+    let foreign: Option<(&'static str, u8, u8)> = std::thread::scope(|sc| {
+        let h = sc.spawn(|| {
+            let (mut a, mut b) = (1u8, 0x81u8);
+            before.store(a, Relaxed);
+            behind.store(b, Relaxed);
+            started.store(true, Release);
+            let mut found = None;
+            while !stop.load(Acquire) {
+                let (ra, rb) = (before.load(Relaxed), behind.load(Relaxed));
+                if ra != a {
+                    found = Some(("in front of", a, ra));
+                    break;
+                }
+                if rb != b {
+                    found = Some(("behind", b, rb));
+                    break;
+                }
+                a = a.wrapping_add(1);
+                b = b.wrapping_add(1);
+                before.store(a, Relaxed);
+                behind.store(b, Relaxed);
+            }
+            found
+        });
+        while !started.load(Acquire) {
+            std::hint::spin_loop();
+        }
+        let d = dest_addr as *mut u8;
+        for k in 0..6000u32 {
+            unsafe {
+                match c.op {
+                    0 => memsyms::ts_memset(d, k as i32 & 0xff, n),
+                    1 => memsyms::ts_memcpy(d, src.as_ptr(), n),
+                    _ => memsyms::ts_memmove(d, src.as_ptr(), n),
+                };
+            }
+        }
+        stop.store(true, Release);
+        h.join().expect("neighbour thread")
+    });
+    let name = ["memset", "memcpy", "memmove"][c.op.min(2) as usize];
+    if let Some((side, stored, read)) = foreign {
+        fail!(format!("{name}|writes-outside-destination|byte {side} the destination rewritten"), "{name}(dest&15={mis:x}, n={n}) called in a loop: the byte right {side} the destination, which only the observing thread writes, read {read:#x} after that thread had stored {stored:#x} there - the function stores to a byte outside [dest, dest+n) (putting back what it read there earlier)");
+    }
+    rep.nontrivial = n > 0;
+    rep.class(name);
+    rep.class_if(n >= 16, "word-path");
+    rep.class_if((dest_addr + n) % WORD != 0, "destination-ends-inside-a-word");
+    rep.class_if(dest_addr % WORD != 0, "destination-starts-inside-a-word");
+    drop(store);
+    Ok(rep)
+}
+
+fn neighbours(ctx: &Ctx) {
+    if let Some(c) = ctx.replay_case::<NeighbourCase>("neighbours") {
+        ctx.run_one("neighbours", &c, || check_neighbours(&c));
+        return;
+    }
+    if ctx.is_replay() {
+        return;
+    }
+    let mut k = 0u32;
+    for op in 0u8..3 {
+        for n in (0usize..=48).chain([63, 64, 65, 127, 128, 129, 255, 1000]) {
+            for mis in [0u8, 1, 3, 4, 7, 8, 9, 13, 15] {
+                k += 1;
+                if k % ctx.nworkers != ctx.worker {
+                    continue;
+                }
+                let c = NeighbourCase { op, n, mis };
+                if !ctx.run_one("neighbours", &c, || check_neighbours(&c)) {
+                    return;
+                }
+            }
+        }
+    }
+}
+
 pub fn run(ctx: &Ctx) {
     let w = std::cell::RefCell::new(World::new());
     ctx.extra("carrier", serde_json::json!(format!("(i) memsyms: {} with {} #[no_mangle] stripped, #![no_builtins]", memsyms::ORIGIN, memsyms::NO_MANGLE_STRIPPED)));
@@ -776,5 +886,6 @@ pub fn run(ctx: &Ctx) {
     ctx.run_prop("move-rand", ctx.cases(600, 30_000), move_rand(), |c: &MoveCase| check_move(&mut w.borrow_mut(), c));
     ctx.run_prop("set-rand", ctx.cases(400, 20_000), set_rand(), |c: &SetCase| check_set(&mut w.borrow_mut(), c));
     ctx.run_prop("cmp-rand", ctx.cases(400, 20_000), cmp_rand(), |c: &CmpCase| check_cmp(&mut w.borrow_mut(), c));
+    neighbours(ctx);
     probe::run(ctx);
 }
